@@ -69,8 +69,13 @@ out["suite_s"] = round(time.time() - t0)
 t0 = time.time()
 ev = "/tmp/ev_seed_%s_%s" % (prop, k)
 log = "/tmp/proc_seed_%s_%s.log" % (prop, k)
+import fcntl
+lock = open("/tmp/seed3/check.lock", "w")
+fcntl.flock(lock, fcntl.LOCK_EX)          # one check (16 processes) at a time
+t0 = time.time()
 with open(log, "w") as fp:
     p = subprocess.run(["/verif/check", prop] + extra, env=dict(os.environ, SX_REPO_SRC=wt + "/src", SX_EVIDENCE_DIR=ev), stdout=fp, stderr=subprocess.STDOUT, cwd="/verif")
+fcntl.flock(lock, fcntl.LOCK_UN)
 out["check_exit"] = p.returncode
 out["check_s"] = round(time.time() - t0)
 sh("git", "-C", wt, "checkout", "--", ".")
